@@ -17,7 +17,8 @@ from segno import writers
 
 TOP = ['theories/Props/C10.v', 'theories/Props/C10_vector.v', 'theories/Tie/TieTables.v',
        'theories/Tie/TieUtils.v', 'theories/Tie/TieUtilsIter.v',
-       'theories/Tie/TieVecCommon.v', 'theories/Tie/TieVecTex.v', 'theories/Tie/TieVecPdf.v', 'theories/Tie/TieVecEps.v']
+       'theories/Tie/TieVecCommon.v', 'theories/Tie/TieVecTex.v', 'theories/Tie/TieVecPdf.v', 'theories/Tie/TieVecEps.v',
+       'theories/Tie/TieSvg.v']
 RULE = ('symbols M1..M4, 1, 2, 7 (10, 40 in thorough) + Micro QR symbols with a completely light row + hand-made 5x5 matrices (direct writer calls) x integer '
         'scales {1,2,3,10} x fractional scales {0.5,1.5,2.25,3.3} x borders {0,1,4,default} x dark / light colour sets x SVG option sets (xmldecl, svgns, nl, '
         'omitsize, unit, svgversion, title/desc/id/class with markup characters, draw_transparent, per-module-type colours); every SVG / EPS / PDF / TeX output '
@@ -131,7 +132,12 @@ SVG_VARIANTS = [
     dict(finder_dark='red', data_dark='green', quiet_zone='yellow', light='white', unit='mm'), dict(finder_dark='red', data_dark='green', quiet_zone='yellow', svgversion=2.0,
                                                                                                      dark='#00000080'),
     dict(dark='#000', light=None, quiet_zone='#000'), dict(finder_dark='#f00', finder_light='red', dark='darkblue'),
+    # exactly two distinct colour values, but not split "dark types / light types" (the cheap two-colour rendering must not be used)
+    dict(dark='#123456', light='#fedcba', quiet_zone='#123456'), dict(dark='#123456', quiet_zone='#123456'),
+    dict(dark='#123456', light='#fedcba', finder_light='#123456'), dict(dark='#123456', light='#fedcba', data_dark='#fedcba'),
+    dict(dark='#123456', light='#fedcba', separator='#123456', quiet_zone='#fedcba'),
 ]
+COINCIDING = SVG_VARIANTS[-5:]
 VEC_COLOURS = [dict(dark=d, light=li) for d in ('black', '#000', 'red', 'darkblue', (255, 0, 0), '#010203') for li in (None, 'white', '#ff0')]
 TEX_VARIANTS = [dict(), dict(dark='black'), dict(dark='red'), dict(dark='darkblue', unit='mm'), dict(url='http://example.org/'), dict(dark='', unit='pt')]
 INT_SCALES = [1, 2, 3, 10]
